@@ -1,6 +1,6 @@
 """C10 - INSERT rows always match the column list; mismatches are reported and leave the statement unchanged.
 
-Exec (MIR of the current tree): InsertStatement::{new, into_table, columns, values, values_panic, select_from, or_default_values, or_default_values_many},
+Exec (MIR of the current tree): InsertStatement::{new, into_table, columns, values, values_panic, values_from_panic, select_from, or_default_values, or_default_values_many},
 Error::ColValNumMismatch, the derived Clone / PartialEq of the statement, prepare_insert_statement on the three backends.
 Sym: the call history (kinds, column counts, row lengths) is chosen by the engine and explored exhaustively; every cell value is a symbolic Int."""
 import z3
@@ -18,7 +18,7 @@ def gen_history(e, H, N, M):
     calls = []; cells = {}
     n = e.choose(H + 1, 'ncalls')
     for ci in range(n):
-        k = ['columns', 'values', 'values_panic', 'select_from', 'or_default_values', 'or_default_values_many'][e.choose(6, 'kind')]
+        k = ['columns', 'values', 'values_panic', 'select_from', 'or_default_values', 'or_default_values_many', 'values_from_panic'][e.choose(7, 'kind')]
         if k == 'columns':
             calls.append(['columns', COLS[:e.choose(N + 1, 'ncols')]])
         elif k in ('values', 'values_panic'):
@@ -27,6 +27,15 @@ def gen_history(e, H, N, M):
                 t = z3.BitVec('v_%d_%d' % (ci, j), 32); cells[(ci, j)] = t
                 row.append(['val', V('Int', t)])
             calls.append([k, row])
+        elif k == 'values_from_panic':
+            rows = []
+            for ri in range(2):
+                m = e.choose(M + 1, 'len'); row = []
+                for j in range(m):
+                    t = z3.BitVec('v_%d_%d_%d' % (ci, ri, j), 32); cells[(ci, ri, j)] = t
+                    row.append(['val', V('Int', t)])
+                rows.append(row)
+            calls.append([k, rows])
         elif k == 'select_from':
             m = e.choose(M + 1, 'len')
             calls.append(['select_from', {'k': 'select', 'calls': [['expr', ['col', 's%d_%d' % (ci, j)]] for j in range(m)] + [['from', ['t', 'src']]]}])
@@ -52,6 +61,12 @@ def spec(calls):
                 if m > 0:
                     if source is None or source[0] != 'values': source = ('values', [])
                     source[1].append(c[1])
+        elif k == 'values_from_panic':
+            for row in c[1]:
+                if len(row) != ncols: return ncols, source, default, outcomes, redeclared, True
+                if len(row) > 0:
+                    if source is None or source[0] != 'values': source = ('values', [])
+                    source[1].append(row)
         elif k == 'select_from':
             m = len([x for x in c[1]['calls'] if x[0] == 'expr'])
             if m != ncols: outcomes.append({'err': 'ColValNumMismatch', 'col_len': ncols, 'val_len': m, 'unchanged': True})
